@@ -83,11 +83,12 @@ Outcome(b, n) ==
     [] b = "task_sched"     -> Val(n + 8)
     [] b = "task_contract"  -> Val(n + 9)
     [] b = "task_sched_then" -> Val(n + 11)
+    [] b = "task_sched_stopped" -> Err        \* a returned Task whose head is scheduled on the stopped inline executor
     [] b = "shared_cached_exc" -> Exc(2)       \* a ready SharedFuture that somebody else also holds (a cache)
 
 \* a behaviour that creates an inner asynchronous object performs that object's own allocation(s)
 InnerAllocs(b) == CASE b \in {"fut_ready", "fut_pending", "fut_err", "shared_ready", "shared_pending",
-                              "task_make", "task_sched", "task_contract", "shared_cached_exc"} -> 1
+                              "task_make", "task_sched", "task_contract", "shared_cached_exc", "task_sched_stopped"} -> 1
                     [] b = "task_sched_then" -> 2
                     [] OTHER -> 0
 
